@@ -66,12 +66,12 @@ BATCHES = {
 		return *this;
 	}
 
-	constexpr void swap(subarray&& other) && noexcept {""", """		BOOST_MULTI_ASSERT(this->extension() == other.extension());
+	constexpr void swap(subarray&& other) && noexcept(std::is_nothrow_swappable_v<T>) {""", """		BOOST_MULTI_ASSERT(this->extension() == other.extension());
 		adl_copy(other.begin(), other.end(), this->begin());
 		return *this;
 	}
 
-	constexpr void swap(subarray&& other) && noexcept {""", 1),
+	constexpr void swap(subarray&& other) && noexcept(std::is_nothrow_swappable_v<T>) {""", 1),
         ("adaptors/blas/gemm.hpp", """	assert( a_first.stride()==1 || (*a_first).stride()==1 ); // NOLINT(cppcoreguidelines-pro-bounds-array-to-pointer-decay,hicpp-no-array-decay)
 	assert( b_first.stride()==1 || (*b_first).stride()==1 ); // NOLINT(cppcoreguidelines-pro-bounds-array-to-pointer-decay,hicpp-no-array-decay)""",
          """	assert( b_first.stride()==1 || (*b_first).stride()==1 ); // NOLINT(cppcoreguidelines-pro-bounds-array-to-pointer-decay,hicpp-no-array-decay)
